@@ -6,7 +6,7 @@ unpack must agree with the reference interpretation on acceptance, on every valu
 """
 import sys
 
-from mc import common, ea, alphabet
+from mc import ir, common, ea, alphabet
 
 MODULE = 'mc.props.c08'
 
@@ -74,12 +74,44 @@ def decl_specs(tier):
 def check_decl(dc, st, tier, only=None):
     if only is not None:
         raw = only['raw']
-        ea.conformance(dc, st, raw, ea.ref_parse(dc.P, raw, only.get('start', 0)), only.get('start', 0))
+        r, u = ea.conformance(dc, st, raw, ea.ref_parse(dc.P, raw, only.get('start', 0)), only.get('start', 0))
+        if not only.get('start', 0):
+            emits(dc, st, raw, r, u)
         return
     budget = ea.budget_for(dc, tier)
     for raw, r in ea.inputs_for(dc, budget):
         r, u = ea.conformance(dc, st, raw, r)
         st.add('states', ea.state_key(dc, r, u, raw))
+        emits(dc, st, raw, r, u)
+
+
+NOT_SEQUENTIAL = {'pos', 'abs', 'class_align', 'elem_aligned', 'em', 'nonconsume', 'regex_nonkept', 'eos', 'rawcb', 'dollar'}
+
+
+def emits(dc, st, raw, r, u):
+    """"... and later emitting nothing": in a purely sequential declaration an absent optional / an empty list emits nothing, and what
+    WAS parsed (a present optional - also one holding 0 or b'' -, every element, the chosen alternative) emits exactly the bytes it
+    was parsed from: pack() of the parsed packet is the consumed prefix"""
+    if u is None or r[0] != 'ok' or u[0] != 'ok' or (dc.feats & NOT_SEQUENTIAL):
+        return
+    if ir.extract(u[1], dc.P, dc.pkts) != r[1].pv:
+        return                                  # already reported by the parse oracle
+    st.inc('emit_evaluations')
+    out = ea.impl_pack(u[1])
+    exp = raw[:r[1].end]
+    if out[0] != 'ok' or out[1] != exp:
+        kind, _ = first_absent_or_present(dc, r[1].pv)
+        call = '%s.unpack(%r).pack()' % (dc.P['name'], raw)
+        st.violate('emit-mismatch: %s' % kind, '%s -> %r; parsed as %r from the bytes %r, which is what it must emit | %s' % (
+            call, out[1], r[1].pv, exp, dc.src.replace('\n', '; ')), dc.case(raw=raw), dc.snippet('print(%s)' % call))
+
+
+def first_absent_or_present(dc, pv):
+    for fname, n in dc.P['fields']:
+        k = ea.node_kind(n)
+        if k.startswith(('opt', 'seq', 'ref')):
+            return k, fname
+    return '?', None
 
 
 def run(tier):
@@ -92,7 +124,7 @@ def run(tier):
     cov = ea.coverage(st, 'declarations over the repeated/optional/reference rows of the alphabet (count/condition as constant, field, '
                           'expression, callable; until; when; per-element alignment; selector references; nesting through wrappers), alone, '
                           'paired with each other and with plain neighbours; all inputs up to the bound; unpack vs the reference interpretation '
-                          '(acceptance, values, end offset); states = distinct (declaration, wrapper, reference outcome, implementation outcome, input length)')
+                          '(acceptance, values, end offset); for purely sequential declarations pack() of the parsed packet must be exactly the consumed bytes (absent optionals and empty lists emit nothing, present ones - zero and empty values included - emit their bytes); states = distinct (declaration, wrapper, reference outcome, implementation outcome, input length)')
     cov['rule'] += LADDER_NOTE
     cov['rule'] += '; every component alone once more in child interpreters started with -O'
     cov['programs_under_python_O'] = st.n.get('programs_under_O', 0)
